@@ -111,13 +111,13 @@ def main(tier):
             ff2[name] = b64(mutate(data, rnd))
             add("mutation", "mu%d_%d" % (n, k), ff2, root=name)
     # 3. random walks of the tree machine
-    c = dict(c06.CONST_NONE, History="TRUE", MaxLen="40", EmitMode='"docs"')
+    c = dict(c06.CONST_NONE, History="TRUE", MaxLen="40", EmitMode='"docs"', MaxInc="2")
     r = tlc_ok(tlc("JSightTree", "Tree_docs.cfg", consts=c, simulate=3000 if thorough else 400, depth=45, tlc_seed=sd, workers=4,
                    timeout=3000), "JSightTree simulate")
     chk.add_tlc(r)
     for n, m in enumerate(r.mbt):
-        data, _ = render.render_tree_doc(m["doc"])
-        add("tree_walk", "tw%d" % n, {"main.jst": b64(data)})
+        tfiles, _ = render.render_tree_project(m["doc"])
+        add("tree_walk", "tw%d" % n, {f: b64(t) for f, t in tfiles.items()})
     # 4. API documents, valid and multi-fault, with option sets; macro and include graphs
     docs = c04.gen_docs(chk, 3000 if thorough else 400, 6, sd * 100 + 81, workers=8 if thorough else 4)
     allk = ["JSIGHT", "INFO", "Title", "Version", "Description", "SERVER", "BaseUrl", "URL", "GET", "POST", "PUT", "PATCH", "DELETE",
